@@ -5,7 +5,8 @@
 import JSV.Proofs.ResTot
 namespace JSV
 namespace Go
-namespace RInv
+namespace RTot
+open RInv
 open Uri
 
 /-! ### the invariant -/
@@ -418,6 +419,6 @@ theorem resolveURIsLoop_tot (env : Env) (R : List NodeId) (draft : Draft) (root 
           rw [List.map_append, map_fst_pair]
           exact hx
 
-end RInv
+end RTot
 end Go
 end JSV
